@@ -212,9 +212,9 @@ Print Assumptions C24_reopen_contiguous.
    [tail at crash, S) is in the range of the reopened table. *)
 Theorem C24_synced_survive : forall maxsz encode t0 hs ci cd (cm : bool),
   maxsz < two32 -> init true = Ok t0 -> hguarded maxsz encode t0 hs -> xguarded maxsz encode t0 hs ->
-  let '(t, S) := srun maxsz encode t0 0 hs in
+  let '(t, sy) := srun maxsz encode t0 0 hs in
   cut_ok t ci cd ->
-  exists t', crash_reopen true t ci cd cm = Ok t' /\ S <= t_items t' /\ t_hidden t' <= t_hidden t.
+  exists t', crash_reopen true t ci cd cm = Ok t' /\ sy <= t_items t' /\ t_hidden t' <= t_hidden t.
 Proof. exact table_synced_survive. Qed.
 Print Assumptions C24_synced_survive.
 
